@@ -201,3 +201,32 @@ SPECS["C14"] = dict(targets=["Properties/C14.vo"], judge_targets=["Check/ChkFlag
                          "non-trivial = the line was accepted; distinct by case term",
                     assumptions=["shellquote.Split is outside the model (checked per case to return the generated tokens)",
                                  "regexp (RE2) is modelled by hand-written scanners for the two patterns; their source text is pinned through Gen/RegexPins.v"])
+
+
+def explore_parse(modes):
+    def f(spec, res, a):
+        runs = []
+        for mode, nq, nt in modes:
+            runs.append(("h_parse", ["-mode", mode, "-seed", str(res.seed), "-n", str(nq if a.tier == "quick" else nt)]))
+        return V.standard_explore(spec, res, a, runs)
+    return f
+
+
+def parse_spec(pid, judge, case_type, modes, rule_text):
+    return dict(targets=["Properties/%s.vo" % pid], judge_targets=["Check/ChkParse.vo"],
+                imports="Require Import Bytes Parser ChkParse.", case_type=case_type, judge=judge, shard=80, explore=explore_parse(modes), rule=rule_text,
+                assumptions=["regexp (RE2), strconv, strings.TrimSpace/Fields/ToLower, net.IP.String and unix.SignalName are modelled by hand-written Gallina functions (or a generated table) and tied only by this correspondence",
+                             "the expected @timestamp text and IPv6 text are produced by Go's own time and net packages from the generated numbers"])
+
+
+SPECS["C04"] = parse_spec("C04", "judge_c04", "hcase", [("header", 2500, 60000)],
+    "log lines type=T msg=audit(S.mmm:N)<sep>body for named and unnamed record types (half each), S in [0,2^34) with boundaries, mmm 000-999, N over uint32 with boundaries, hostile bodies (msg=, parentheses, colons, the well-known key names, quotes), "
+    "upper/lower-case type names, padding; 20% truncated inside the header or with one header byte damaged, 10% with signed / zero-padded / overflowing numerals, 10% without msg= or with a short type part. "
+    "ParseLogLine and Parse are both called. non-trivial = a message was returned; distinct by case term")
+SPECS["C12"] = parse_spec("C12", "judge_c12", "dcase", [("data", 2500, 60000)],
+    "records written the way the kernel writes them (safe strings quoted, others upper-case hex) for SYSCALL, PATH, CWD, EXECVE, PROCTITLE (NUL-separated), SOCKADDR (IPv4, IPv6 incl. mapped and compressible addresses, unix), USER_CMD, TTY/USER_TTY, USER_LOGIN and plain types; "
+    "values drawn from five byte classes (path-like, printable, any byte 0x01-0xFF, quote/backslash/space-heavy, hex-looking) subject to the property's exclusions; placeholders ?, ?,, (null), empty; derived fields result/auid/ses/exit/arch/syscall. "
+    "non-trivial = Data() succeeded; distinct by case term")
+SPECS["C05"] = parse_spec("C05", "judge_c05", "dcase", [("fuzz", 2500, 100000), ("data", 800, 20000)],
+    "text spliced from ~60 fragments (keys of every enrichment path with valid, malformed and extreme values, quotes, backslashes, the AVC/LOGIN/CRED_DISP peculiarities, huge argc) behind six header variants, for each specially handled record type and random types; plus the kernel-encoded records of C12. "
+    "Each message: Data, Tags, ToMapStr twice (must be equal), under recover() and a 5 s deadline. non-trivial = Data() succeeded; distinct by case term")
